@@ -69,6 +69,10 @@ type c19Corpus struct {
 	RawGroups bool `json:"raw_groups,omitempty"`
 	// HugeValues: the numeric field of every document is 1e308, so a sum over two documents is +Inf
 	HugeValues bool `json:"huge_values,omitempty"`
+	// Late: the documents are recent and late - three hours (even index) and one hour (odd index) older than Now,
+	// so a fraction that holds both kinds gets an occupancy map with a gap once it is sealed
+	Late bool  `json:"late,omitempty"`
+	Now  int64 `json:"now,omitempty"`
 }
 
 type c19Req struct {
@@ -80,6 +84,9 @@ type c19Req struct {
 	// offsets 0, 1, 2, so range ends coincide with the oldest and the newest document of the fractions
 	From int `json:"from,omitempty"`
 	To   int `json:"to,omitempty"`
+	// AbsFrom / AbsTo: an absolute time range in milliseconds (for the corpus of recent documents)
+	AbsFrom int64 `json:"abs_from,omitempty"`
+	AbsTo   int64 `json:"abs_to,omitempty"`
 }
 
 type c19Job struct {
@@ -185,6 +192,13 @@ func c19Handle(raw json.RawMessage) any {
 						}
 					}
 				}
+				if job.Corpus.Late {
+					age := int64(3 * 3600_000)
+					if i%2 == 1 {
+						age = 3600_000
+					}
+					d.ID.MID = uint64(job.Corpus.Now - age + int64(i))
+				}
 				if job.Corpus.RawGroups {
 					for k := range d.Toks {
 						if d.Toks[k].F == "g" {
@@ -225,6 +239,9 @@ func c19Handle(raw json.RawMessage) any {
 	params := processor.SearchParams{AggQ: aggQ, HistInterval: job.Req.Hist, From: 0, To: seq.MID(vfrac.MaxMID), Limit: math.MaxInt32, WithTotal: false, Order: order}
 	if job.Req.From != 0 || job.Req.To != 0 {
 		params.From, params.To = seq.MID(vfrac.BaseMID+job.Req.From-1), seq.MID(vfrac.BaseMID+job.Req.To-1)
+	}
+	if job.Req.AbsTo != 0 {
+		params.From, params.To = seq.MID(job.Req.AbsFrom), seq.MID(job.Req.AbsTo)
 	}
 	as := fracmanager.MustStartAsync(fracmanager.AsyncSearcherConfig{DataDir: filepath.Join(job.Dir, "async_searches"), Parallelism: 1}, c19MP{}, fm)
 	const id = "req-1"
@@ -548,6 +565,16 @@ func TestVerifC19(t *testing.T) {
 		// sums that leave the float64 range: +Inf in the synchronous answer
 		{c19Corpus{Fracs: [][]int{{0, 2}, {1, 3}}, HugeValues: true}, c19Req{Query: "*", Agg: "sum:v:g"}},
 		{c19Corpus{Fracs: [][]int{{0, 1}, {2, 3}}, HugeValues: true}, c19Req{Query: "*", Agg: "sum:v:g"}}}
+	// recent, late documents: the fraction that is active when the search starts holds documents of three hours and
+	// of one hour ago; requests into the gap between them, around the old ones, and over everything
+	now := time.Now().UnixMilli()
+	lateCorpus := c19Corpus{Fracs: [][]int{{0, 1}, {2, 3}}, Late: true, Now: now}
+	for _, rg := range [][2]int64{{now - 9000_000, now - 5400_000}, {now - 4*3600_000, now - 2*3600_000}, {0, now}} {
+		rawJobs = append(rawJobs, struct {
+			c   c19Corpus
+			req c19Req
+		}{lateCorpus, c19Req{Query: "*", Hist: 0, AbsFrom: rg[0], AbsTo: rg[1]}})
+	}
 	queries := []string{"*", `k:"a*"`, `(not k:"b")`, `m:"x y"`}
 	var reqs []c19Req
 	for _, q := range queries {
